@@ -83,7 +83,8 @@ def spelling(draw, segs: list[str], root_name: str = "capsule", hostile=True):
             parts[0:0] = ["..", root_name + draw(st.sampled_from(["-secret", "2"]))]
             labels.append("sibling")
     path = "/" + "/".join(parts)
-    tail = draw(st.sampled_from(["", "", "", "/", "//", "/.", "%2F", "%00", ";x=1", "?q=1", "\\", "/..", "%20"]))
+    tail = draw(st.sampled_from(["", "", "", "/", "//", "/.", "%2F", "%00", ";x=1", "?q=1", "\\", "/..", "%20",
+                                 "%0D%0A20%20text/gemini%0D%0A", "%0A", "%0D"]))
     if tail:
         labels.append("tail:" + tail)
         path += tail
